@@ -219,6 +219,13 @@ def run_cpu_child(c, wfd):
         os.path.exists = fake_exists
         lctx.open = fake_open
     try:
+        if "phys" in c:
+            # only_physical_cores=True with a scripted physical-core count (the lookup is cached in the module)
+            lctx.physical_cores_cache = c["phys"] if c["phys"] is not None else "not found"
+            r = {"ok": lctx.cpu_count(only_physical_cores=True), "joblib": joblib.cpu_count(only_physical_cores=True),
+                 "aff_seen": len(os.sched_getaffinity(0))}
+            os.write(wfd, json.dumps(r).encode())
+            os._exit(0)
         r = {"ok": lctx.cpu_count(), "joblib": joblib.cpu_count(), "aff_seen": len(os.sched_getaffinity(0))}
     except Exception as e:  # noqa
         r = {"raise": type(e).__name__, "msg": str(e)[:200]}
